@@ -70,8 +70,10 @@ Max(S)    == CHOOSE x \in S : \A y \in S : y <= x
 Packet(s, d, n, k, a, cl, f) == [src |-> s, dst |-> d, seq |-> n, kind |-> k, amt |-> a, call |-> cl, fee |-> f, mut |-> 0]
 
 (* code the destination callback returns *)
-CallCode(cl) == CASE cl = "revert"   -> 3      \* endpoint: "execute call data failed"
-                  [] cl = "hookfail" -> 1      \* msg server: "receive packet callback failed"
+CallCode(q) == CASE q.call = "revert"   -> 3    \* endpoint: "execute call data failed"
+                 [] q.call = "hookfail" -> 1    \* msg server: "receive packet callback failed"
+                 [] q.call = "nestfail" -> IF q.amt > 1 THEN 1   \* a send nested in the callback fails (no client): the hook fails
+                                           ELSE 3               \* nothing left to forward after the agent's fee of 1: the agent reverts
                   [] OTHER           -> 0
 
 Init ==
@@ -185,7 +187,7 @@ RecvEff(c, p, alt, k, pf, s) ==
   IN IF ~RecvAccept(c, q, k, pf, s) THEN UNCHANGED stateVars
      ELSE
      LET d    == q.src
-         code == CallCode(q.call)
+         code == CallCode(q)
          okx  == code = 0
      IN
      /\ receipts' = [receipts EXCEPT ![c] = @ \cup {T(q)}]
